@@ -195,7 +195,7 @@ Section Parse.
     destruct Hk as [Hkm Eci]. subst ci.
     assert (Hidk : id_given w k d = true).
     { unfold id_given. rewrite Efc. destruct (is_sco21 c) eqn:Es; cbn [negb orb]; auto.
-      destruct Hid as [Hi | Hi]; [exact Hi |]. rewrite (Hi t Ety) in Hsco. specialize (Hsco eq_refl). discriminate. }
+      destruct Hid as [Hi | Hi]; [exact Hi |]. rewrite (Hi t eq_refl) in Hsco. specialize (Hsco eq_refl). discriminate. }
     destruct (run_construct_cg vr ev w pattern_ok selectors_ok ids Hclosed f' k allow interop d None _ Hkm Hidk Er)
       as [c' [Efc' [Hcok Hcg]]].
     rewrite Efc in Efc'. inv Efc'.
@@ -224,7 +224,7 @@ Section Parse.
     (* "type" is written as given *)
     assert (Htype' : alookup type_key (written c' Sv) = Some (JStr t)).
     { rewrite alookup_written.
-      pose proof (cg_given_value vr ev w pattern_ok selectors_ok rc rp ro (nestable w ids) Hpad Hrc c' allow interop vrf Hnd Hslots
+      pose proof (cg_given_value vr ev w pattern_ok selectors_ok rc rp ro c' allow interop vrf Hnd
                     (S f') d Sv _ hc type_key (JStr t) Hp Hcg Ety) as Hv.
       assert (Es : alookup type_key Sv = Some (PJ (JStr t))).
       { destruct (slot_of c' type_key) as [sl |] eqn:Esl; [| exact Hv].
@@ -233,7 +233,7 @@ Section Parse.
       rewrite Es. destruct (mem_ustr type_key (defaulted_names c' Sv)) eqn:Ed; auto.
       destruct (mem_defaulted vr (nestable w ids) c' Hnd Hslots _ _ Ed) as [sl [b [_ [_ E3]]]]. rewrite Es in E3. discriminate. }
     (* the version is detected again *)
-    assert (Hdet' : detect_version vr w (S (S f')) (written c' Sv) = Ok (Some vv)).
+    assert (Hdet' : detect_version vr w (S (S f')) (written c' Sv) = Ok (Some (cver c'))).
     { rewrite (detect_nonbundle vr w (S f') (written c' Sv) t Htype' Hnb).
       rewrite (detect_nonbundle vr w (S f') d t Ety Hnb) in Edet.
       assert (Hnotdfl : forall n v, alookup n Sv = Some v -> (forall b, v <> PJ (JBool b)) -> alookup n (written c' Sv) = Some (encode false v)).
@@ -241,12 +241,12 @@ Section Parse.
         destruct (mem_ustr n (defaulted_names c' Sv)) eqn:Ed; auto.
         destruct (mem_defaulted vr (nestable w ids) c' Hnd Hslots _ _ Ed) as [sl [b [_ [_ E3]]]]. rewrite Ev in E3. inv E3.
         exfalso. eapply Hnb0. reflexivity. }
-      rewrite Ever in Hver. destruct vv.
+      destruct (cver c') eqn:Ecv.
       - (* 2.0 *)
         apply andb_true_iff in Hver. destruct Hver as [Hsvslot Hidd].
         destruct (slot_of c' sv_key) eqn:Esv; try discriminate.
         destruct (alookup sv_key d) as [sv0 |] eqn:Esvd.
-        + pose proof (cg_given_value vr ev w pattern_ok selectors_ok rc rp ro (nestable w ids) Hpad Hrc c' allow interop vrf Hnd Hslots
+        + pose proof (cg_given_value vr ev w pattern_ok selectors_ok rc rp ro c' allow interop vrf Hnd
                         (S f') d Sv _ hc sv_key sv0 Hp Hcg Esvd) as Hv. rewrite Esv in Hv.
           rewrite alookup_written, Hv.
           destruct (mem_ustr sv_key (defaulted_names c' Sv)) eqn:Ed.
@@ -255,7 +255,7 @@ Section Parse.
             rewrite <- En in Esv. rewrite (slot_of_unique c' Hnd sl Hsl) in Esv. discriminate.
           * cbn [encode]. exact Edet.
         + assert (Habs : amem sv_key Sv = false).
-          { eapply (cg_absent vr ev w pattern_ok selectors_ok rc rp ro (nestable w ids) Hpad Hrc c' allow interop vrf Hnd Hslots);
+          { eapply (cg_absent vr ev w pattern_ok selectors_ok rc rp ro c' allow interop vrf Hnd);
               [exact Hp | exact Hcg | exact Esvd |]. intros sl Hsl. rewrite Esv in Hsl. discriminate. }
           assert (Ew : alookup sv_key (written c' Sv) = None).
           { rewrite alookup_written. unfold amem in Habs. destruct (alookup sv_key Sv); [discriminate | reflexivity]. }
@@ -276,7 +276,7 @@ Section Parse.
             destruct (slot_of c' id_key) as [sl |] eqn:Eidsl.
             -- destruct (sdef sl) eqn:Edf.
                ++ exfalso. assert (amem id_key Sv = false).
-                  { eapply (cg_absent vr ev w pattern_ok selectors_ok rc rp ro (nestable w ids) Hpad Hrc c' allow interop vrf Hnd Hslots);
+                  { eapply (cg_absent vr ev w pattern_ok selectors_ok rc rp ro c' allow interop vrf Hnd);
                       [exact Hp | exact Hcg | exact Hidn |]. intros sl0 Hsl0. rewrite Eidsl in Hsl0. inv Hsl0. exact Edf. }
                   congruence.
                ++ rewrite Ectype in Hidd. apply negb_true_iff in Hidd. rewrite Hidd. reflexivity.
@@ -284,7 +284,7 @@ Section Parse.
                ++ rewrite Ectype in Hidd. apply negb_true_iff in Hidd. rewrite Hidd. reflexivity.
                ++ rewrite Ectype in Hidd. apply negb_true_iff in Hidd. rewrite Hidd. reflexivity.
             -- exfalso. assert (amem id_key Sv = false).
-               { eapply (cg_absent vr ev w pattern_ok selectors_ok rc rp ro (nestable w ids) Hpad Hrc c' allow interop vrf Hnd Hslots);
+               { eapply (cg_absent vr ev w pattern_ok selectors_ok rc rp ro c' allow interop vrf Hnd);
                    [exact Hp | exact Hcg | exact Hidn |]. intros sl0 Hsl0. rewrite Eidsl in Hsl0. discriminate. }
                congruence.
       - (* 2.1: spec_version is a fixed slot *)
@@ -293,21 +293,20 @@ Section Parse.
         apply ustr_eqb_eq in Hver. subst v.
         assert (Es : alookup sv_key Sv = Some (PJ (JStr (u "2.1")))).
         { destruct (alookup sv_key d) as [sv0 |] eqn:Esvd.
-          - pose proof (cg_given_value vr ev w pattern_ok selectors_ok rc rp ro (nestable w ids) Hpad Hrc c' allow interop vrf Hnd Hslots
+          - pose proof (cg_given_value vr ev w pattern_ok selectors_ok rc rp ro c' allow interop vrf Hnd
                           (S f') d Sv _ hc sv_key sv0 Hp Hcg Esvd) as Hv. rewrite Esv in Hv.
             destruct Hv as [v [h [E1 E2]]]. rewrite Eknd in E2. cbn [clean_kind] in E2.
             destruct (jvalue_eqb sv0 (JStr (u "2.1"))) eqn:Ej; try discriminate. apply jvalue_eqb_eq in Ej. subst sv0. inv E2. exact E1.
           - assert (Hdn : sdef sl <> DNone) by (rewrite Edf; discriminate).
-            destruct (cg_default_present vr ev w pattern_ok selectors_ok rc rp ro (nestable w ids) Hpad Hrc c' allow interop vrf Hnd Hslots
+            destruct (cg_default_present vr ev w pattern_ok selectors_ok rc rp ro c' allow interop vrf Hnd
                         (S f') d Sv _ hc sv_key sl Hp Hcg Esvd Esv Hdn) as [_ Hfx].
             exact (Hfx _ _ Eknd Edf). }
         rewrite (Hnotdfl sv_key _ Es) by (intros b Eb; discriminate). cbn [encode]. reflexivity. }
     (* put the pieces together *)
+    cbv zeta in H. fold found in H. rewrite Efound in H. rewrite Er in H. cbn [pval_has_custom] in H.
+    remember (S f') as f0 eqn:Ef0.
     cbn [run]. change (u "type") with type_key. rewrite Htype'. unfold bind. rewrite Hdet'.
-    cbv zeta. rewrite Ecf.
-    change (RUN (S f') (RConstruct k allow interop (written c' Sv) None)) with (run vr ev w pattern_ok selectors_ok (S f') (RConstruct k allow interop (written c' Sv) None)).
-    rewrite Hre.
-    cbv zeta in H. fold found in H. rewrite Efound in H. rewrite Er in H. cbn [pval_has_custom] in *.
+    cbv zeta. rewrite Ecf. rewrite Hre. cbn [pval_has_custom].
     destruct (vr_parse_guard_custom vr && negb allow && hc); [discriminate | reflexivity].
   Qed.
 End Parse.
